@@ -171,6 +171,22 @@ static std::string runOp(Ctx& c, const std::vector<std::string>& a) {
   if (op == "deser") {
     std::string text = unhex(a[2]);
     size_t h = std::stoul(a[1]);
+    if (alias % 3 == 1) {
+      // the same value through the other format: JSON text -> scratch document -> MessagePack bytes -> destination
+      // (only for float-free values: a double that is exactly a float would come back as a float, the known finding)
+      JsonDocument scratch;
+      std::string js, mp;
+      if (!deserializeJson(scratch, text.data(), text.size()) && !scratch.overflowed()) {
+        serializeJson(scratch, js);
+        if (js.find('.') == std::string::npos && js.find('e') == std::string::npos && js.find('E') == std::string::npos &&
+            js.find("null") == std::string::npos) {
+          serializeMsgPack(scratch, mp);
+          DeserializationError e = h < c.docs.size() ? deserializeMsgPack(*c.docs[h], mp.data(), mp.size())
+                                                     : deserializeMsgPack(H(a[1]), mp.data(), mp.size());
+          return e ? "false" : "true";
+        }
+      }
+    }
     DeserializationError e = h < c.docs.size() ? deserializeJson(*c.docs[h], text.data(), text.size())
                                                : deserializeJson(H(a[1]), text.data(), text.size());
     return e ? "false" : "true";
